@@ -572,6 +572,10 @@ def m_next(I, args, kwargs):
         if len(args) > 1:
             return args[1]
         I.raise_py(StopIteration)
+    cls = it.cls if isinstance(it, SObj) else type(it)
+    r = I.lookup_class_attr(cls, "__next__") if isinstance(cls, type) and I.is_interp_class(cls) else None
+    if r is not None:
+        return I.call_function(r[0], [it], {}, defcls=r[1])
     if _sym(it):
         raise Unsupported("next() on symbolic iterator")
     return _native(I, next, args, kwargs)
